@@ -1,7 +1,7 @@
 (* C20 — property theorems only.  Each is closed by [exact] of a lemma and followed by
    Print Assumptions; Examples show hypotheses are satisfiable / refutation witnesses. *)
 From Coq Require Import List NArith Bool.
-From V Require Import C20.Model C20.Proofs C20.Proofs_overlay C20.Proofs_cas.
+From V Require Import C20.Model C20.Proofs C20.Proofs_overlay C20.Proofs_txfold C20.Proofs_cas.
 Import ListNotations.
 Open Scope N_scope.
 
@@ -69,6 +69,42 @@ Theorem C20_overlay_before_index : forall v b i base r pre target q,
   r q = apply_diffs (before_layers pre target i) base q.
 Proof. exact state_before_index_spec. Qed.
 Print Assumptions C20_overlay_before_index.
+
+(* The same against what the feeder SENT: the read equals the in-order fold over the wire
+   per-transaction diffs of the view's blocks up to b (each block: its declared classes, then its
+   transactions one by one, reverted or not) — for views whose entries are consistent, which
+   C20_entry_consistent gives for every reachable entry. *)
+Theorem C20_overlay_tx_fold : forall (v : chain) (b : N) (base r : reader) (q : query),
+  state_at v b base = inr r ->
+  Forall (fun e => NoDup (map fst (e_classes e)) /\ e_diff e = squash empty_diff (e_items e))
+         (upto b (rev v)) ->
+  deploy_fresh (map ldiff (tx_layers (upto b (rev v)))) = true ->
+  is_lastupd q = false ->
+  r q = apply_diffs (tx_layers (upto b (rev v))) base q.
+Proof. exact state_at_tx_fold. Qed.
+Print Assumptions C20_overlay_tx_fold.
+
+Theorem C20_overlay_before_index_tx_fold : forall v b i base r pre target q,
+  state_before_index v b i base = inr r ->
+  before b (rev v) = (pre, Some target) ->
+  Forall (fun e => NoDup (map fst (e_classes e)) /\ e_diff e = squash empty_diff (e_items e))
+         (target :: pre) ->
+  deploy_fresh (map ldiff (before_tx_layers pre target i)) = true ->
+  is_lastupd q = false ->
+  r q = apply_diffs (before_tx_layers pre target i) base q.
+Proof. exact state_before_index_tx_fold. Qed.
+Print Assumptions C20_overlay_before_index_tx_fold.
+
+(* The state before index len(txs) of block b is the state at b — every query, no side condition
+   beyond the entry's diff being the squash of its transactions' diffs. *)
+Theorem C20_before_index_full_is_state_at : forall v b base r1 r2 pre target,
+  before b (rev v) = (pre, Some target) ->
+  e_diff target = squash empty_diff (e_items target) ->
+  state_before_index v b (len (e_items target)) base = inr r1 ->
+  state_at v b base = inr r2 ->
+  forall q, r1 q = r2 q.
+Proof. exact before_index_full. Qed.
+Print Assumptions C20_before_index_full_is_state_at.
 
 (* ContractStorageLastUpdatedBlock through the overlay: exact when the view up to b is the single
    block b ... *)
